@@ -39,7 +39,7 @@ import (
 // (CommitStep.BlockParts, ProposalPOL.ProposalPOL, VoteSetBits.Votes).  On the current tree these crash the gossip
 // goroutines / allocate without bound (proposed/C16-peer-bitarray-unvalidated.md); the cases are gated off until the fix
 // is in /repo.  Flip to true together with the fix.
-const hostileBitArrays = false
+const hostileBitArrays = true
 
 // CountPeer is a p2p.Peer that records what is sent to it and answers IsRunning() == true a bounded number of times.
 type CountPeer struct {
@@ -97,11 +97,11 @@ func HookPresent() bool {
 
 type gresult struct {
 	scenarios, messages, reactorPanics, triggers, hookTriggers, sentVotes, sentParts, sentOther, standin, fastSync, addPeer int
-	dead, deadScen                                                                                     string
-	deadStep, curStep                                                                                  int
-	hung, badSend, bigAlloc                                                                            []string
-	kinds, phases                                                                                      map[string]int
-	minHeightAfter                                                                                     uint64
+	dead, deadScen                                                                                                          string
+	deadStep, curStep                                                                                                       int
+	hung, badSend, bigAlloc                                                                                                 []string
+	kinds, phases                                                                                                           map[string]int
+	minHeightAfter                                                                                                          uint64
 }
 
 type wire struct {
